@@ -63,13 +63,13 @@ func c10List(msgs []*fbb.Message, err error) string {
 
 func runC10(ctx *Ctx) error {
 	r, res := ctx.Rng, ctx.Res
-	res.Rule = "histories over a universe of 5 MIDs (incl. one sorting before '.' in file-name order), 3 recipient forms, forwarder lists {none, one, two, mixed case, the same station twice or in two spellings} and the P2P-only flag: AddOut, Prepare, restart with a fresh DirHandler (normal / send-only), GetOutbound, SetSent, SetDeferred, ProcessInbound, GetInboundAnswer, SetUnread, folder listings; random histories of length 4..40 and (thorough) all histories of length <= 4 over a reduced alphabet. Every observation of the real DirHandler on a temporary directory is compared with the model; returned outbound messages must carry no X-FilePath / X-Unread / X-P2POnly header. SetSent of a MID not in the outbox (log.Fatalf) is run in a child process. Non-trivial: history with a SetSent or an inbound message followed by a query; distinct by history."
+	res.Rule = "histories over a universe of 7 MIDs (incl. one sorting before '.' in file-name order, one containing a dot and one ending in the mailbox's own extension), 3 recipient forms, forwarder lists {none, one, two, mixed case, the same station twice or in two spellings} and the P2P-only flag: AddOut, Prepare, restart with a fresh DirHandler (normal / send-only), GetOutbound, SetSent, SetDeferred, ProcessInbound, GetInboundAnswer, SetUnread, folder listings; random histories of length 4..40 and (thorough) all histories of length <= 4 over a reduced alphabet. Every observation of the real DirHandler on a temporary directory is compared with the model; returned outbound messages must carry no X-FilePath / X-Unread / X-P2POnly header. SetSent of a MID not in the outbox (log.Fatalf) is run in a child process. Non-trivial: history with a SetSent or an inbound message followed by a query; distinct by history."
 	root, err := os.MkdirTemp("", "verif-c10-")
 	if err != nil {
 		return err
 	}
 	defer os.RemoveAll(root)
-	mids := []string{"AAA1", "AAA", "B2", "A-X", "ZZZZZZZZZZZZ"}
+	mids := []string{"AAA1", "AAA", "B2", "A-X", "ZZZZZZZZZZZZ", "A.B", "B2.b2f"}
 	rcpts := []string{"LA1B", "la5nta", "someone@example.org", "LA1B@winlink.org"}
 	fwsets := [][]string{nil, {"LA1B"}, {"LA5NTA", "LA1B"}, {"la1b"}, {"N0CALL"}, {"LA1B", "LA1B"}, {"LA1B", "la1b@winlink.org", "N0CALL"}}
 	var lines, impl []string
